@@ -350,22 +350,25 @@ def simplify(stmts, nonnull):
 
 
 def _loops_to_comprehensions(stmts):
-    """xs = []; for T in IT: xs.append(E)   ->   xs = [E for T in IT]      (E and IT do not mention xs)"""
+    """xs = []; for T in IT: [locals;] [if C:] xs.append(E)   ->   xs = [E for T in IT if C]   (one collection per loop, the
+    loop directly follows the empty initialisation, E / IT / C do not mention xs)"""
+    from . import builders as B
     out = []
     i = 0
     while i < len(stmts):
         st = stmts[i]
         nxt = stmts[i + 1] if i + 1 < len(stmts) else None
-        if isinstance(st, ast.Assign) and len(st.targets) == 1 and isinstance(st.targets[0], ast.Name) and isinstance(st.value, ast.List) and not st.value.elts \
-                and isinstance(nxt, ast.For) and not nxt.orelse and len(nxt.body) == 1 and isinstance(nxt.body[0], ast.Expr):
+        if isinstance(st, ast.Assign) and len(st.targets) == 1 and isinstance(st.targets[0], ast.Name) and isinstance(nxt, ast.For):
             xs = st.targets[0].id
-            c = nxt.body[0].value
-            if isinstance(c, ast.Call) and isinstance(c.func, ast.Attribute) and c.func.attr == "append" and U(c.func.value) == xs and len(c.args) == 1 and not c.keywords \
-                    and xs not in _used_names(c.args[0]) and xs not in _used_names(nxt.iter):
-                comp = ast.ListComp(elt=c.args[0], generators=[ast.comprehension(target=nxt.target, iter=nxt.iter, ifs=[], is_async=0)])
-                out.append(ast.Assign(targets=[ast.Name(id=xs, ctx=ast.Store())], value=comp, lineno=getattr(st, "lineno", 0), col_offset=0))
-                i += 2
-                continue
+            kind = B._empty_kind(st.value)
+            ms = B._loop_mutations(nxt) if kind in ("list", "set", "dict", "counter") else None
+            if ms is not None and len(ms) == 1 and ms[0][0] == kind and ms[0][1] == xs:
+                k_, nm_, payload, cs = ms[0]
+                comp = B._comp(kind, payload, nxt.target, nxt.iter, cs)
+                if xs not in _used_names(comp):
+                    out.append(ast.Assign(targets=[ast.Name(id=xs, ctx=ast.Store())], value=comp, lineno=getattr(st, "lineno", 0), col_offset=0))
+                    i += 2
+                    continue
         out.append(st)
         i += 1
     return out
